@@ -15,7 +15,7 @@ fn prop_def(id: &str) -> Option<PropDef> {
     Some(match id {
         "C07" => PropDef { parts: props::c07::parts(), rule: props::c07::RULE, assumptions: props::c07::ASSUMPTIONS, literal: None },
         "C13" => PropDef { parts: props::c13::parts(), rule: props::c13::RULE, assumptions: props::c13::ASSUMPTIONS, literal: Some(props::c13::check_literal) },
-        "C14" => PropDef { parts: props::c14::pure_parts(), rule: props::c14::RULE, assumptions: props::c14::ASSUMPTIONS, literal: Some(props::c14::check_literal) },
+        "C14" => PropDef { parts: props::c14::parts(), rule: props::c14::RULE, assumptions: props::c14::ASSUMPTIONS, literal: Some(props::c14::check_literal) },
         "C03" => PropDef { parts: props::c03::parts_c03(), rule: props::c03::RULE_C03, assumptions: props::c03::ASSUMPTIONS, literal: None },
         "C04" => PropDef { parts: props::c03::parts_c04(), rule: props::c03::RULE_C04, assumptions: props::c03::ASSUMPTIONS, literal: None },
         "C05" => PropDef { parts: props::c05::parts(), rule: props::c05::RULE, assumptions: props::c05::ASSUMPTIONS, literal: None },
